@@ -101,6 +101,9 @@ package load
 //@   requires shOK(as)
 //@   ensures [rejected] ret(as.shouldDrop) ==> result0 == nil && result1 == ErrServiceOverloaded && as.flying == old(as.flying) && *as.droppedRecently == 1
 //@   ensures [admitted] !ret(as.shouldDrop) ==> result1 == nil && result0 != nil && as.flying == old(as.flying) + 1
+// the decision is taken on the in-flight count WITHOUT the arriving request (so "in flight > capacity" means what
+// the property says, not ">= capacity")
+//@   ensures [decided-before-counting-this-request] calls(as.shouldDrop) == 1 && at(as.shouldDrop, as.flying) == old(as.flying) && at(as.shouldDrop, as.avgFlying) == old(as.avgFlying)
 //@   ensures [promise] !ret(as.shouldDrop) ==> typeis(result0, ptr(promise)) && unbox(result0, ptr(promise)).shedder == as
 
 // A promise gives its slot back exactly once, whichever way it completes.
